@@ -377,7 +377,7 @@ package account
 //@   modifies ao.trie, ao.dbErr
 
 //@ func accountObject.updateTrie
-//@   property C01
+//@   property C01 C03
 //@   requires ao != nil
 //@   loop 0: invariant forall k string :: visited(k) ==> !has(ao.dirtyStorage, k)
 //@   loop 0: invariant forall k string :: has(ao.dirtyStorage, k) ==> old(has(ao.dirtyStorage, k))
@@ -392,7 +392,7 @@ package account
 // transaction and journals it; the undo removes exactly that log and gives the number back, so that logs
 // emitted after a reverted frame are numbered as if the frame had never run.
 //@ func AccountDB.AddLog
-//@   property C04
+//@   property C04 C12
 //@   requires adb != nil && log != nil && adb.logs != nil && adb.logSize < 4294967295
 //@   ensures [count]    adb.logSize == old(adb.logSize) + 1
 //@   ensures [index]    log.Index == old(adb.logSize) && log.TxHash == adb.thash
